@@ -2,7 +2,14 @@
 SPECIFICATION Spec
 CONSTANTS
   MaxChunks = 4
-  MaxSize = 3
+  UnitSizes = {0, 1, 2, 3}
+  UnitKinds = {"fmt"}
+  IfaceSets = {{}}
+  Route = "fmt"
+  MaxWrite = 0
+  PieceCount = "piece"
+  LatchBy = "test"
+  CachedViews = FALSE
   LatchError = TRUE
   CountAccepted = TRUE
   KeepFirstError = FALSE
